@@ -44,6 +44,7 @@ type c19Client struct {
 	segs     []int           // segment end offsets
 	pauses   []time.Duration // pause before each segment
 	silent   bool            // never writes anything
+	abandon  int             // 1: sends part of a method name and closes, 2: and then stays silent
 	conn     *sim.Conn
 	early    bool // the first line was still incomplete when the sniff timeout expired
 	writeErr error
@@ -72,7 +73,7 @@ func buildC19(tier string) sim.Scenario {
 		for i := 0; i < n; i++ {
 			c := &c19Client{name: fmt.Sprintf("cli%d", i)}
 			var first string
-			switch k := tp.Choose(12); {
+			switch k := tp.Choose(13); {
 			case k <= 2:
 				c.want = "rtsp"
 				first = rtspM[tp.Choose(len(rtspM))] + " rtsp://10.0.0.1:554/live/a RTSP/1.0"
@@ -91,11 +92,24 @@ func buildC19(tier string) sim.Scenario {
 			case k == 10:
 				c.want = "none"
 				c.silent = true
+			case k == 12:
+				// a client that sends only the beginning of a method name and then hangs up or falls silent: no request line
+				// ever arrives, so no service may be given the connection
+				c.want = "none"
+				c.abandon = 1 + tp.Choose(2) // 1: closes, 2: stays silent past the sniff timeout
+				m := append(append([]string{}, rtspM...), httpM...)[tp.Choose(len(rtspM)+len(httpM))]
+				c.data = []byte(m[:1+tp.Choose(len(m)-1)])
+				for _, full := range append(append([]string{"OPTIONS"}, rtspM...), httpM...) {
+					if strings.HasPrefix(string(c.data), full) { // "GET", "GET_P" out of "GET_PARAMETER": a whole method name (and more); what a sniffer makes of it is not stated
+						c.data = c.data[:len(full)-1]
+					}
+				}
+				w.Probe("c19.abandoned-after-partial-method")
 			default:
 				c.want = "rtsp"
 				first = "SETUP rtsp://10.0.0.1/live/a/streamid=0 RTSP/1.0"
 			}
-			if !c.silent {
+			if !c.silent && c.abandon == 0 {
 				var b bytes.Buffer
 				b.WriteString(first)
 				b.WriteString("\r\nCSeq: 1\r\nHost: x\r\nContent-Length: ")
@@ -202,6 +216,19 @@ func buildC19(tier string) sim.Scenario {
 					w.Sleep(40 * time.Second)
 					return
 				}
+				if c.abandon > 0 {
+					if _, err := cc.Write(c.data); err != nil {
+						c.writeErr = err
+						return
+					}
+					c.sent = len(c.data)
+					if c.abandon == 1 {
+						w.Sleep(time.Duration(tp.Choose(3)) * time.Second)
+						cc.CloseWrite()
+					}
+					w.Sleep(40 * time.Second)
+					return
+				}
 				off := 0
 				elapsed := time.Duration(0)
 				firstLineEnd := bytes.Index(c.data, []byte("\r\n")) + 2
@@ -251,7 +278,7 @@ func buildC19(tier string) sim.Scenario {
 				}
 			} else if routed != c.want {
 				if c.want == "none" {
-					w.Fail("C19/misrouted", "%s (%q) is neither an RTSP nor an HTTP request line but was handed to the %s service", c.name, firstLine(c.data), routed)
+					w.Fail("C19/misrouted", "%s (%q, abandoned=%d) is neither an RTSP nor an HTTP request line but was handed to the %s service", c.name, firstLine(c.data), c.abandon, routed)
 				} else {
 					w.Fail("C19/misrouted", "%s (%q) should reach the %s service, reached %s", c.name, firstLine(c.data), c.want, routed)
 				}
